@@ -303,6 +303,9 @@ except OSError:
     _PINNED_SIGS = {}
 
 
+_NONE_OK = {"masked_key_len", "length", "algorithm", "block_size", "header", "pan_pad"}
+
+
 def _call_style(name, f, args, kwargs):
     """The public functions are called positionally most of the time and, for every fifth call, with their last 1..n
     arguments passed by keyword (deterministically, by call number): behaviour must not depend on the call style."""
@@ -630,6 +633,15 @@ class Case:
     def call(self, fn, *args, op=None, stream="plain", with_entropy=False, compare=True, tok=None, entropy=None):
         """psec.<fn>(*args) on the implementation; same operation as a line for the model. `entropy`: bytes the operating
         system is made to return during this call (chosen values of the random fill) instead of real entropy."""
+        # an argument that is None although the function documents no None there is the missing result of an earlier call the
+        # implementation refused (an encoder raising on a documented input, say): that is the finding - the dependent call is skipped
+        names = _PINNED_SIGS.get(fn) if isinstance(fn, str) else None
+        if names and any(a is None and k < len(names) and names[k] not in _NONE_OK for k, a in enumerate(args)):
+            self.impl_fail.append(f"{fn} could not be called: an earlier call that should have produced one of its arguments failed")
+            r = CallResult()
+            r.ok, r.value, r.err, r.exc, r.entropy, r.requests, r.elapsed, r.args_changed = False, None, "skipped", None, b"", [], 0.0, False
+            r.index = len(self.lines) - 1
+            return r
         toks = [enc(a) for a in args]
         _probe_before(fn, args)
         r = call_impl(fn, args, stream=stream, replay_entropy=entropy)
